@@ -121,7 +121,16 @@ def h_fullrun(c, np, cla):
             "rounds": sum(1 for e in t["events"] if e["ev"] == "round_begin")}
 
 
-HANDLERS = {"assign": h_assign, "lltable": h_lltable, "fullrun": h_fullrun}
+def h_assign_raw(c, np, cla):
+    """The labelling kernel on a table given as decimal strings (not exactly representable values, NaN columns):
+    only compared ACROSS execution modes (C15), never against the integer specification."""
+    tab = np.array([[float(v) for v in row] for row in c["cost"]], dtype=np.float64)
+    beta = float(c["beta"]) if not isinstance(c["beta"], list) else np.array([float(v) for v in c["beta"]])
+    labels, reported = cla.assign_point_cluster_labels(tab, beta)
+    return {"labels": [int(x) for x in labels], "reported": repr(float(reported))}
+
+
+HANDLERS = {"assign": h_assign, "lltable": h_lltable, "fullrun": h_fullrun, "assign_raw": h_assign_raw}
 
 if __name__ == "__main__":
     main()
